@@ -79,6 +79,16 @@ CHECKS = {
         "Every pre-state x event x calling style twin, every attribute name of the machine as an event name, and Transition.match for all strings.",
         "DESIGN.md section 4 C13",
     ),
+    "C15": sx(
+        "relational: each rendering and the reference rendering are stepped on the same symbolic guard values from every state on every event, with the abstract machine as third voice",
+        "13 declaration styles of one abstract machine: structure, events, allowed events and one symbolic step from every state on every event must coincide.",
+        "DESIGN.md section 4 C15",
+    ),
+    "C16": sx(
+        "A's trace under solver-enumerated disturber scripts compared with the table of A alone (symbolic guard/argument)",
+        "All bounded disturber scripts (unrelated classes with A's names, subclasses, other instances, models of the same class) interleaved with A's events.",
+        "DESIGN.md section 4 C16",
+    ),
     "C14": sx(
         "result rule judged on symbolic return values incl. awkward kinds",
         "All bounded populations of before/on callbacks x transition kinds x engines with symbolic return values; 0->None, 1->unwrapped, else list.",
